@@ -294,6 +294,40 @@ def render(items):
     return "\n".join(out), names
 
 
+CONTEXTS = [
+    ("switch-tag", "switch %s {\n\tdefault:\n\t}\n\treturn \"sw\""),
+    ("if-init", "if r := %s; out(r) != \"\" {\n\t\treturn out(r)\n\t}\n\treturn \"\""),
+    ("switch-init", "switch r := %s; {\n\tdefault:\n\t\treturn out(r)\n\t}"),
+    ("any-slice", "r := []any{%s}\n\treturn out(r...)"),
+    ("call-arg", "return out(%s)"),
+    ("closure", "r := func() any { return %s }()\n\treturn out(r)"),
+    ("paren", "r := (%s)\n\treturn out(r)"),
+    ("trailing-comment", "r := %s // trailing comment\n\treturn out(r)"),
+    ("key-value", "r := map[string]any{\"k\": %s}\n\treturn out(r)"),
+    ("if-cond", "if out(1) == out(%s) || %s == %s {\n\t\treturn \"if\"\n\t}\n\treturn \"\""),
+    ("for-cond", "for %s == %s {\n\t\tbreak\n\t}\n\treturn \"for\""),
+]
+
+
+def embed(items, rng):
+    """Re-embeds the flagged expression of `r := EXPR; return out(r)` scenarios into other syntactic
+    contexts (statement headers, interface-typed positions, call arguments). Contexts that do not compile
+    for an operand type are weeded out by validate()."""
+    out = []
+    tail = "\n\treturn out(r)"
+    for fam, body in items:
+        if "§" in body or not body.endswith(tail):
+            continue
+        head = body[:-len(tail)]
+        k = head.rfind("r := ")
+        if k < 0 or (k > 0 and head[k - 1] not in "\t\n") or "\n" in head[k:]:
+            continue
+        expr = head[k + 5:]
+        name, tmpl = CONTEXTS[rng.randrange(len(CONTEXTS))]
+        out.append((fam + "@" + name, head[:k] + (tmpl.replace("%s", "\0").replace("\0", expr))))
+    return out
+
+
 def build12(rng, scale=1):
     """Scenario families for C12 (claims of a constant outcome)."""
     g = Gen(rng)
